@@ -7,8 +7,6 @@ Local Open Scope Z_scope.
 (* compact constructor for the generated case files: class index, id, id_short ("" = None), source, children *)
 Definition ns (c : nat) (id k src : string) (ch : list tree) : tree := Node (cls_of_nat c) id (okey k) src ch.
 
-Inductive dop := OCommit (p : path) | OUpdate (p : path) (recursive : bool).
-
 Definition enc_seg (s : seg) : list Z := match s with Some x => codes x ++ [-1] | None => [-9] end.
 Definition enc_call (c : call) : list Z :=
   (match c_kind c with KCommit => 1 | KUpdate => 2 end) :: Z.of_nat (c_backend c)
@@ -19,24 +17,33 @@ Definition enc_outcome (o : option outcome) : list (list Z) :=
   | Some (calls, e) => map enc_call calls ++ [[match e with None => 0 | Some BValueError => 3 | Some BUnknownBackend => 7 end]]
   end.
 
-Definition do_op (reg : registry) (root : tree) (o : dop) : option outcome :=
-  match o with
-  | OCommit p => commit reg root p
-  | OUpdate p r => update reg root p r
-  end.
-
-(* the intended-call specification evaluated on the same case (must equal the model: proved in
-   proofs/DispatchProofs.v for well-formed trees; evaluated here as a cross-check of the proof's reading) *)
-Definition spec_op (reg : registry) (root : tree) (o : dop) : option outcome :=
-  match o with
-  | OCommit p => match addr root p with Some n => Some (run reg KCommit (commit_visits root p n)) | None => None end
-  | OUpdate p r => match addr root p with Some n => Some (run reg KUpdate (update_visits root p n r)) | None => None end
+(* the intended-call specification evaluated on the same sequence: every commit/update is `run` over its
+   characterised visit list, with a registry that answers with the LAST registration per scheme (must equal the
+   model: proved in proofs/DispatchProofs.v for well-formed trees; evaluated here as a cross-check) *)
+Definition hist_registry (init : registry) (h : list (string * nat)) : registry :=
+  map (fun k => (k, match last_registered h k (reg_lookup init k) with Some b => b | None => 0%nat end))
+      (filter (fun k => match last_registered h k (reg_lookup init k) with Some _ => true | None => false end)
+              (map fst h ++ map fst init)).
+Fixpoint spec_exec (init : registry) (h : list (string * nat)) (root : tree) (ops : list dop) : list (option outcome) :=
+  match ops with
+  | [] => []
+  | ORegister s b :: r => spec_exec init (h ++ [(s, b)]) root r
+  | OCommit p :: r =>
+      match addr root p with
+      | Some n => Some (run (hist_registry init h) KCommit (commit_visits root p n))
+      | None => None
+      end :: spec_exec init h root r
+  | OUpdate p rc :: r =>
+      match addr root p with
+      | Some n => Some (run (hist_registry init h) KUpdate (update_visits root p n rc))
+      | None => None
+      end :: spec_exec init h root r
   end.
 
 Definition check_case (c : registry * tree * list dop * Z) : bool :=
   let '(reg, root, ops, expected) := c in
-  Z.eqb (hash_zlll 0 (map (fun o => enc_outcome (do_op reg root o)) ops)) expected
-  && Z.eqb (hash_zlll 0 (map (fun o => enc_outcome (spec_op reg root o)) ops)) expected
+  Z.eqb (hash_zlll 0 (map enc_outcome (exec reg root ops))) expected
+  && Z.eqb (hash_zlll 0 (map enc_outcome (spec_exec reg [] root ops))) expected
   && wf_treeb root.
 
 Definition check_scheme (c : string * list Z) : bool :=
